@@ -15,7 +15,7 @@
    flight when the process died, `c_edits` all edits applied so far, `c_crashed`, `c_torn`. *)
 From Coq Require Import NArith List Bool.
 From Blue Require Import Mani.Model Mani.Fs Mani.ModelMani Mani.ProofsOrder Mani.ProofsFormat
-  Mani.ProofsFs Mani.ProofsCrash Mani.ProofsLts Mani.ProofsChain Mani.ProofsChainLts Mani.ProofsVerify Mani.ProofsIter.
+  Mani.ProofsFs Mani.ProofsCrash Mani.ProofsLts Mani.ProofsChain Mani.ProofsChainLts Mani.ProofsVerify Mani.ProofsIter Mani.Lock Mani.ProofsLock.
 Import ListNotations.
 Open Scope N_scope.
 
@@ -139,6 +139,30 @@ Proof.
   split; [intros e e' x H1 H2; exact (edit_rm_wf e x e' H1 H2)|].
   intros e e' c x H1 H2; exact (edit_info_wf e c x e' H1 H2).
 Qed.
+
+(* ---- 9. the exclusive lock file (utilz/src/lockfile.rs; a Manifest owns a Lockfile on
+   root/LOCKFILE for as long as it lives, so "at most one live Lockfile" is "at most one live
+   Manifest per root", which is what lets `reach` be a single-writer transition system).
+   Kernel rule modelled (POSIX): a process that closes ANY descriptor of a file loses all its
+   record locks on that file.  With the table ACTIVELY_LOCKING consulted BEFORE the file is
+   opened (the repaired order), for any number of processes and any interleaving of their system
+   calls: a live Lockfile's process owns the kernel lock, hence two live Lockfiles are in the same
+   process (where the table allows one). *)
+Theorem C13_lock_exclusive : forall es p q,
+  l_held (lrun TableFirst es linit) p = true -> l_held (lrun TableFirst es linit) q = true -> p = q.
+Proof. exact lock_exclusive. Qed.
+
+Theorem C13_lock_holder_owns_kernel_lock : forall es p,
+  l_held (lrun TableFirst es linit) p = true -> l_owner (lrun TableFirst es linit) = Some p.
+Proof. exact lock_holder_owns. Qed.
+
+(* ... and the order matters: opening the file before consulting the table (the code before the
+   repair) lets a second process in — process 0 locks, asks again (refused, but the File it opened
+   and dropped released its kernel lock), process 1 locks. *)
+Theorem C13_lock_open_before_table_unsound :
+  exists es, l_held (lrun OpenFirst es linit) 0%nat = true /\ l_held (lrun OpenFirst es linit) 1%nat = true /\
+             l_owner (lrun OpenFirst es linit) = Some 1%nat.
+Proof. exact open_first_not_exclusive. Qed.
 
 (* ---- non-vacuity: a concrete checksum, concrete well-formed edits, and a concrete reachable
    configuration in which the process died by power loss in the middle of an edit ---- *)
